@@ -90,9 +90,16 @@ func doc(r *rand.Rand, c DocCfg, depth int, sb *strings.Builder) {
 	case x < 9:
 		sb.WriteString([]string{"true", "false", "null", "null"}[r.IntN(4)])
 	default:
-		sb.WriteString(c.Nums[r.IntN(len(c.Nums))])
+		if r.IntN(24) == 0 {
+			// boundary values: exact only as integers / only as doubles
+			sb.WriteString(docBigNums[r.IntN(len(docBigNums))])
+		} else {
+			sb.WriteString(c.Nums[r.IntN(len(c.Nums))])
+		}
 	}
 }
+
+var docBigNums = []string{"9007199254740993", "9007199254740992", "9007199254740992.0", "9223372036854775807", "-9223372036854775808", "9223372036854775808", "2147483648", "1e19", "123456789012345678901234567890", "0." + strings.Repeat("0", 30) + "1"}
 
 // Trees enumerates all JSON documents (as text) with at most maxNodes nodes
 // over the given leaf alphabet and object keys. A node is a scalar, an array
